@@ -608,17 +608,17 @@ def replay_search(template, pid, secs=900):
         scs += PULL_SCENARIOS.get(template, [])
     if pid == "C13":
         scs += OVERLAP_SCENARIOS.get(template, [])
-    st = SEARCH_STATS.setdefault((template, pid), {"scenarios": [], "runs": 0, "runs_deepest_level": 0, "max_len": 10, "kind": "exhaustive enumeration of decision tapes (iterative deepening) of the most general conformant peers against the real crate"})
+    st = SEARCH_STATS.setdefault((template, pid), {"scenarios": [], "runs": 0, "runs_deepest_level": 0, "max_len": 12, "kind": "exhaustive enumeration of decision tapes (iterative deepening) of the most general conformant peers against the real crate"})
     for sc in scs:
         try:
-            p = subprocess.run([REPLAY, "search", sc, "--property", pid, "--len", "10", "--budget", "1500000"] + excl, capture_output=True, text=True, timeout=secs)
+            p = subprocess.run([REPLAY, "search", sc, "--property", pid, "--len", "12", "--budget", "1500000"] + excl, capture_output=True, text=True, timeout=secs)
             d = json.loads(p.stdout)
         except Exception:
             continue
         if d.get("tape") is not None:
             d["scenario"] = sc
             return d
-        st["scenarios"].append(sc + (" (budget exhausted before length 10)" if d.get("budget_exhausted") else ""))
+        st["scenarios"].append(sc + (" (budget exhausted before length 12)" if d.get("budget_exhausted") else ""))
         st["runs"] += d.get("runs", 0)
         st["runs_deepest_level"] += d.get("runs_deepest_level", 0)
     return None
